@@ -5,7 +5,8 @@ space  : expression strings of universe.exprs (annotation grammar: full depth<=2
 oracle : on out = transform(s)
    meaning  eval(s) == eval(out) in refmodel.symtyping (| and typing.Union build one flattened node; typing.Dict/List/
             Set/Tuple/Pattern identified with dict/list/set/tuple/Pattern; + - @ ... are distinct nodes)
-   real     (annotation inputs that evaluate on this interpreter) eval with the real classes, compared structurally by
+   real     (annotation inputs) none of dict/list/set/tuple/Pattern left as a name in out; and, where the input evaluates
+            on this interpreter, eval with the real classes, compared structurally by
             typing.get_origin/get_args (Union-ness not spelling, typing.List[...] ~ list[...], ForwardRef('x') ~ 'x')
    nobitor  (annotation inputs) no BinOp(BitOr) left in ast.parse(out) outside constants / Literal[...]
    fixpoint transform(out) == out
@@ -30,15 +31,17 @@ from ..refmodel import symtyping
 from ..universe import exprs
 
 ID = "C20"
-CHUNKS_PER_WORKER = 6
-STEP = 4000
+CHUNKS_PER_WORKER = 16
+STEP = 2000
 ALT = "tlg_U"  # the non-default union= name
 CLAUSES = ("raises", "meaning", "real", "nobitor", "fixpoint", "sametree", "cache")
 
 FAMILIES = {
-    "quick": ["nonannot:3", "chains:names:5", "chains:3:4", "full:8:2", "spine:5:3"],
-    "thorough": ["nonannot:4", "chains:names:6", "chains:3:6", "full:14:2", "spine:3:4"],
+    "quick": ["nonannot:3", "chains:names:5", "chains:3:4", "full:A14:1", "full:A6:2", "spine:S3:3"],
+    "thorough": ["nonannot:4", "chains:names:6", "chains:3:6", "full:A14:1", "full:A9:2", "spine:S3:3", "spine:S2:4"],
 }
+CACHE_STRIDE = 16  # bulk families: the union=-variation part of clause (6) on every 16th expression (all of the small ones)
+SMALL = 5000
 
 T = future.transform
 
@@ -55,13 +58,20 @@ def meta(tier):
     sizes = {spec: len(exprs.family(spec)) for spec in FAMILIES[tier]}
     return {
         "rule": "every expression string of the named families (universe/exprs.py; a program = one expression string); "
-                "each is transformed cold, warm, with union= varied, and re-transformed, and judged by the 7 clauses; "
+                "each is transformed cold, warm, re-transformed (and with union= varied in between: every expression of the families "
+                "of <= 5000 items, every 16th of the bulk ones) and judged by the 7 clauses; "
                 "non-trivial = the output differs from the input text; distinct by (s, out)",
         "bounds": {"families": sizes, "total": sum(sizes.values()),
-                   "atoms": {"14": exprs.ATOMS14, "8": exprs.ATOMS8, "5": exprs.ATOMS5, "3": exprs.ATOMS3},
-                   "note": "time budget: quick spines use 5 atoms (design: 6), thorough depth-4 spines use 3 atoms (design: 4); "
-                           "chains: every parenthesisation of <=6 operands over 3 operand kinds, plus distinct names"},
-        "assumptions": ["clauses nobitor/real are judged on annotation-grammar inputs only (non-annotation: meaning, fixpoint, sametree, cache, raises)",
+                   "alphabets": {k: v for k, v in exprs.ALPHABETS.items() if any(f":{k}:" in f for f in FAMILIES[tier])},
+                   "cache_union_variation_stride": CACHE_STRIDE,
+                   "note": "atom sets shrunk to the time budget (transform costs ~300 us here, not 30 us; ~1.1 ms per judged expression): "
+                           "design quick = full d<=2 over 8 atoms + d3 spines over 6; built = all 14 atoms to depth 1, full d<=2 over 6 atoms, d3 spines over 3. "
+                           "design thorough = full d<=2 over 14 atoms + d4 spines over 4; built = all 14 atoms to depth 1, full d<=2 over 9 atoms, "
+                           "d3 spines over 3, d4 spines over 2. chains: every parenthesisation of <=6 operands over 3 operand kinds "
+                           "(minimal and explicit parentheses), plus distinct names"},
+        "assumptions": ["an expression that BINDS one of the five builtin names (lambda parameter, comprehension target) is not judged for meaning: "
+                        "the documented rewriting is by name, either reading is admissible (counted as oracle:meaning-unjudged-binder-shadows-generic)",
+                        "clauses nobitor/real are judged on annotation-grammar inputs only (non-annotation: meaning, fixpoint, sametree, cache, raises)",
                         "real clause is skipped (counted) where the INPUT does not evaluate on this interpreter",
                         "union de-duplication is not modelled symbolically (both sides alike); the real clause sees typing's own"],
         "exhaustive": True,
@@ -127,11 +137,34 @@ def has_bitor(node, skip_literal=True):
     stack = [node]
     while stack:
         n = stack.pop()
-        if isinstance(n, ast.BinOp) and isinstance(n.op, ast.BitOr):
+        cls = n.__class__
+        if cls is ast.BinOp:
+            if n.op.__class__ is ast.BitOr:
+                return True
+            stack.append(n.left)
+            stack.append(n.right)
+        elif cls is ast.Subscript:
+            if skip_literal and _is_literal(n.value):
+                continue
+            stack.append(n.value)
+            stack.append(n.slice)
+        elif cls is ast.Tuple or cls is ast.List:
+            stack.extend(n.elts)
+        elif cls is ast.Attribute:
+            stack.append(n.value)
+        elif cls is ast.Name or cls is ast.Constant:
+            pass
+        else:
+            stack.extend(ast.iter_child_nodes(n))
+    return False
+
+
+def binds_generic(node):
+    """a lambda parameter / comprehension or walrus target spelled like one of the five builtin names.  The documented
+    rewriting is by NAME, so both readings (the bound variable vs. the builtin) are admissible: meaning is not judged."""
+    for n in ast.walk(node):
+        if (n.__class__ is ast.arg and n.arg in _GEN) or (n.__class__ is ast.Name and n.id in _GEN and not isinstance(n.ctx, ast.Load)):
             return True
-        if skip_literal and isinstance(n, ast.Subscript) and _is_literal(n.value):
-            continue
-        stack.extend(ast.iter_child_nodes(n))
     return False
 
 
@@ -208,12 +241,10 @@ def shape(src: str) -> str:
         elts = n.slice.elts if isinstance(n.slice, ast.Tuple) else [n.slice]
         return f"{_kind(n.value)}[" + ",".join(_kind(e) for e in elts) + "]"
     if isinstance(n, ast.Lambda):
-        shadow = any(a.arg in _GEN for a in n.args.args)
-        return ("lambda-param-shadows-generic:" if shadow else "lambda-body:") + _kind(n.body)
+        return "lambda-body:" + _kind(n.body)
     if isinstance(n, (ast.ListComp, ast.SetComp, ast.GeneratorExp, ast.DictComp)):
-        tg = {m.id for g in n.generators for m in ast.walk(g.target) if isinstance(m, ast.Name)}
         elt = n.key if isinstance(n, ast.DictComp) else n.elt
-        return type(n).__name__.lower() + ("-target-shadows-generic:" if tg & _GEN else ":") + _kind(elt)
+        return type(n).__name__.lower() + ":" + _kind(elt)
     if isinstance(n, (ast.Tuple, ast.List, ast.Set)):
         return type(n).__name__.lower() + "(" + ",".join(_kind(e) for e in n.elts[:4]) + ")"
     if isinstance(n, ast.Call):
@@ -228,6 +259,7 @@ def _short(x, n=160):
     return s if len(s) <= n else s[: n - 3] + "..."
 
 
+_FIX_OK: set = set()  # outputs already seen to be fixpoints (several inputs share an output, e.g. `X | Y` and `(X) | (Y)`)
 _GEN_RE = re.compile(r"\b(?:dict|list|set|tuple|Pattern)\b")
 
 
@@ -284,9 +316,13 @@ def judge(s: str, annot: bool, only=None, stats=None, full_cache=True):
         T.cache_clear()
 
     # ---- (4) fixpoint
-    if want("fixpoint"):
+    if want("fixpoint") and out != s and out not in _FIX_OK:  # (out == s: transform(out) is the call just judged)
         fx = call(T, out)
         ncalls += 1
+        if fx.ok and fx.val == out:
+            if len(_FIX_OK) > 50000:
+                _FIX_OK.clear()
+            _FIX_OK.add(out)
         if not fx.ok:
             fails.append(("fixpoint", "raises:" + fx.excname, f"transform(out) raised {fx.excname} for out={_short(out)!r}"))
         elif fx.val != out:
@@ -317,7 +353,11 @@ def judge(s: str, annot: bool, only=None, stats=None, full_cache=True):
         code_s, co = compile(tree_s, "<s>", "eval"), call(compile, tree_o, "<out>", "eval")
         code_o = co.val if co.ok else None
 
-    # ---- (2) real meaning (annotation inputs that evaluate here)
+    # ---- (2) real meaning (annotation inputs).  "typing.Dict/List/Set/Tuple/Pattern for the subscripted or bare builtin
+    # names": none of the five may be left as a name in the output (on the interpreters this is for, list[int] raises)
+    if annot and want("real") and _GEN_RE.search(out) and has_generic_name(tree_o):
+        left = sorted({n.id for n in ast.walk(tree_o) if isinstance(n, ast.Name) and n.id in _GEN})
+        fails.append(("real", "builtin-generic-left", f"out={_short(out)!r} still names the builtin generic(s) {left}"))
     if annot and want("real"):
         rs = call(eval, code_s, REAL_NS)
         if not rs.ok:
@@ -333,7 +373,10 @@ def judge(s: str, annot: bool, only=None, stats=None, full_cache=True):
                     fails.append(("real", "differs", f"input evaluates to {_short(rs.val, 80)}, out={_short(out)!r} to {_short(ro.val, 80)}"))
 
     # ---- (1) symbolic meaning
-    if want("meaning"):
+    if want("meaning") and not annot and _GEN_RE.search(s) and binds_generic(tree_s):
+        ms, mo = call(symtyping.meaning, s), call(symtyping.meaning, out)
+        _bump(stats, "meaning-unjudged-binder-shadows-generic:" + ("same" if ms.ok and mo.ok and ms.val == mo.val else "differs"))
+    elif want("meaning"):
         if code_s is not None and code_o is not None:
             # cheap path: no desugaring (constants are Python constants on both sides); decisive when both evaluate
             ms, mo = call(symtyping.plain_meaning_of_code, code_s), call(symtyping.plain_meaning_of_code, code_o)
@@ -383,18 +426,47 @@ def _fails_clause(sub: str, annot: bool, clause: str):
     return None
 
 
+def _abstractions(s: str):
+    """s with one proper compound sub-expression replaced by a fresh placeholder name, biggest sub-expression first"""
+    tree = ast.parse(s, mode="eval")
+    nodes = [n for n in ast.walk(tree.body) if n is not tree.body and isinstance(n, ast.expr)
+             and not isinstance(n, (ast.Name, ast.Slice, ast.Starred)) and isinstance(getattr(n, "ctx", None), (ast.Load, type(None)))]
+    sized = sorted(((sum(1 for _ in ast.walk(n)), i) for i, n in enumerate(nodes)), key=lambda t: (-t[0], t[1]))
+    used = {n.id for n in ast.walk(tree) if isinstance(n, ast.Name)}
+    fresh = next(f"p{k}" for k in range(100) if f"p{k}" not in used)
+    for _, i in sized:
+        n = nodes[i]
+        saved = (n.__class__, dict(n.__dict__))
+        n.__class__, n.__dict__ = ast.Name, {"id": fresh, "ctx": ast.Load()}
+        try:
+            yield ast.unparse(tree)
+        finally:
+            n.__class__ = saved[0]
+            n.__dict__ = saved[1]
+
+
 def localise(s: str, annot: bool, clause: str, mode: str, detail: str):
-    """blame the smallest proper sub-expression that already fails the same clause"""
+    """blame the smallest proper sub-expression that already fails the same clause, then abstract every operand of it that
+    does not matter (replace by a fresh name while the clause still fails): one root cause -> one small witness"""
     for sub in subexpressions(s):
         r = _fails_clause(sub, annot, clause)
         if r is not None:
-            return sub, r[0], r[1]
+            s, mode, detail = sub, r[0], r[1]
+            break
+    for _ in range(24):
+        for cand in _abstractions(s):
+            r = _fails_clause(cand, annot, clause)
+            if r is not None and r[0] == mode:
+                s, mode, detail = cand, r[0], r[1]
+                break
+        else:
+            break
     return s, mode, detail
 
 
-def check_expr(s, annot, res, case, stats=None):
+def check_expr(s, annot, res, case, stats=None, full_cache=True):
     res.programs += 1
-    out, fails, ncalls = judge(s, annot, stats=stats)
+    out, fails, ncalls = judge(s, annot, stats=stats, full_cache=full_cache)
     res.evals += ncalls
     key = h64(s, out if out is not None else "<raises>")
     res.outcomes.add(key)
@@ -413,9 +485,12 @@ def run_unit(unit, tier, res):
     spec, a, b = unit
     fam = exprs.family(spec)
     stats = {}
+    _FIX_OK.clear()  # the memo never outlives a unit: counters do not depend on which worker ran what before
+    small = len(fam) <= SMALL
     for i in range(a, b):
         s = fam[i]
-        out = check_expr(s, fam.annotation, res, {"s": s, "annot": fam.annotation, "family": spec, "i": i}, stats)
+        out = check_expr(s, fam.annotation, res, {"s": s, "annot": fam.annotation, "family": spec, "i": i}, stats,
+                         full_cache=small or i % CACHE_STRIDE == 0)
         kind, depth = fam.info(i)
         res.hit(f"former:{kind}")
         res.hit(f"{spec.split(':')[0]}:depth{depth}")
@@ -430,4 +505,5 @@ def run_unit(unit, tier, res):
 
 
 def replay(case, tier, res):
+    _FIX_OK.clear()
     check_expr(case["s"], bool(case.get("annot", True)), res, {k: v for k, v in case.items() if k != "clause"})
